@@ -4,6 +4,9 @@
 package vsim
 
 import (
+	"math/big"
+
+	"github.com/relab/hotstuff/security/crypto"
 	"context"
 	"fmt"
 	"reflect"
@@ -85,6 +88,7 @@ type Config struct {
 	NilSigs   bool // scripted actors may send messages with absent signature objects (C10-class)
 	Async     bool // asynchronous vote verification (goroutine per vote), as in production
 	FetchLoss int  // percent of block requests whose reply is lost while faults are allowed
+	RogueKey  bool // bls12: the scripted Byzantine replica registered the rogue key x*G1 - sum(victim keys) with a copied proof-of-possession
 	Label     string
 }
 
@@ -93,6 +97,9 @@ func (c Config) String() string {
 		c.N, c.Ruleset, c.Scheme, c.Cache, c.Leader, c.Twins, c.Scripted, c.ByzRules, fmt.Sprintf("%s/%d", c.Profile, c.Intensity), c.Steps, c.BatchSize)
 	if c.FetchLoss > 0 {
 		s += fmt.Sprintf(" fetchloss=%d%%", c.FetchLoss)
+	}
+	if c.RogueKey {
+		s += " roguekey"
 	}
 	return s
 }
@@ -210,6 +217,29 @@ func NewCluster(cfg Config, rng *vbase.Rng, r *vbase.Result) (*Cluster, error) {
 		a.Node = node
 		if cfg.Clients {
 			a.CIO = server.NewClientIO(a.M.EL, a.M.Logger, node.Cmds)
+		}
+	}
+	if cfg.RogueKey && cfg.Scheme == crypto.NameBLS12 && len(cfg.Scripted) > 0 {
+		// key-registration adversary: victims are q-1 honest replicas; the presented proof is a copy of a victim's
+		var byz *Actor
+		var honest []hotstuff.ID
+		for _, a := range c.Actors {
+			if a.Kind == Scripted && byz == nil {
+				byz = a
+			} else if a.Kind == Honest {
+				honest = append(honest, a.ID)
+			}
+		}
+		if byz != nil && len(honest) >= w.Q()-1 && w.Q() >= 2 {
+			x := new(big.Int).SetUint64(rng.Uint64() | 1)
+			x.Lsh(x, 64).Or(x, new(big.Int).SetUint64(rng.Uint64()))
+			byz.Byz.rogue = w.NewRogue(byz.ID, honest[:w.Q()-1], x)
+			pop := w.PopOf(honest[rng.Intn(w.Q()-1)])
+			for _, a := range c.Actors {
+				if a != byz {
+					byz.Byz.rogue.Install(a.M, pop)
+				}
+			}
 		}
 	}
 	c.cmd = newCmdFeed(c)
